@@ -1466,3 +1466,75 @@ func planC17(tier string, seed int64) (*Plan, error) {
 }
 
 func init() { Plans["C17"] = planC17 }
+
+// ---- C16 ----
+
+func planC16(tier string, seed int64) (*Plan, error) {
+	p := &Plan{MustReach: []string{"done", "items", "two-items", "unreferenced"}}
+	thorough := tier == "thorough"
+	fn, fnX, all := cfg("gfm,footnote", "", ""), cfg("gfm,footnote", "", "xhtml"), cfg(allExt, "autoid,attr", "")
+	places := "peltqhfiu"
+	var jobs []interp.Job
+	add := func(c, refs, defs string, ln int, alpha string) {
+		jobs = append(jobs, job("H_c16_footnotes", "cfg", c, "refs", refs, "defs", defs, "ln", ln, "alpha", alpha))
+	}
+	for i := 0; i < len(places); i++ {
+		add(fn, string(places[i]), "t", 1, "ab1")
+		add(fnX, string(places[i]), "tq", 1, "ab")
+		for j := 0; j < len(places); j++ {
+			add([]string{fn, fnX, all}[(i+j)%3], string(places[i])+string(places[j]), "tt", 1, "ab1")
+		}
+	}
+	for _, d := range []string{"t", "q", "l", "tl", "qt", "ttt"} {
+		add(fn, "pp", d, 1, "ab")
+		add(fn, "", d, 1, "ab")
+	}
+	add(fn, "pp", "tt", 2, "ab")
+	add(fn, "pe", "tt", 2, "a^")
+	add(fn, "ppp", "tt", 1, "ab")
+	add(fnX, "pef", "ttt", 1, "abc")
+	add(all, "plth", "tt", 1, "ab")
+	add(fn, "pppp", "t", 1, "ab")
+	if thorough {
+		for i := 0; i < len(places); i++ {
+			for j := 0; j < len(places); j++ {
+				for k := j; k < len(places); k += 2 {
+					add(fn, string(places[i])+string(places[j])+string(places[k]), "ttt", 1, "abc")
+				}
+			}
+		}
+		add(fn, "pppp", "ttt", 1, "abc")
+		add(fn, "ppp", "ttt", 2, "ab")
+	}
+	// free-form: token sequences and short inputs
+	toks := []string{"[^a]", "[^b]", "[^a]: ", "[^b]: ", "\n\n", "x", "![", "](u)"}
+	nt := 5
+	if thorough {
+		nt = 6
+	}
+	jobs = append(jobs, job("H_c16_footnotes", "cfg", fn, "n", nt, "tokens", joinTok(toks)))
+	for n := 0; n <= 2; n++ {
+		jobs = append(jobs, job("H_c16_footnotes", "cfg", all, "n", n))
+	}
+	docs, err := LoadTxt(RepoDir + "/extension/_test/footnote.txt")
+	if err != nil {
+		return nil, err
+	}
+	nwin := 100
+	if thorough {
+		nwin = 0
+	}
+	jobs = append(jobs, windowJobs("H_c16_footnotes", docs, seed, nwin, 1, []string{fn, all})...)
+	p.Jobs = jobs
+	p.Bounds = map[string]interface{}{
+		"T(fn)":     "1-2 references (thorough: 3) in every combination of placements {paragraph, emphasis, link text, image alt, table cell, block quote, heading, body of definition 0, body of a never-referenced definition} x 1-3 definitions at top level / in a quote / in a list item; reference and definition labels are symbolic 1-byte strings over {a,b,1} (2-byte over {a,b} and {a,^} for some), so which reference hits which definition, duplicates and misses are decided by the solver; up to 4 references of one definition",
+		"free-form": fmt.Sprintf("every sequence of %d tokens from %q; S(2) all extensions", nt, toks),
+		"W(C_fn,1)": fmt.Sprintf("%d seeded (document of extension/_test/footnote.txt, offset) pairs with one symbolic byte (thorough: every offset)", nwin),
+		"oracle":    "from the tokenised output: li ids are fn:1..fn:n in order; each sup id fnref[K]:j contains a link to #fn:j showing j, and item j exists; every back-link targets an existing sup id of its own item, no two the same, every sup id is targeted; all generated ids distinct; a definition whose label no reference spells leaves no trace of its body",
+		"outside":   "more references/definitions; labels longer than 2 bytes",
+	}
+	p.Rule = "cross-links are read from the tokenised output of every path"
+	return p, nil
+}
+
+func init() { Plans["C16"] = planC16 }
